@@ -362,6 +362,7 @@ Leaves ==
     [] Focus = "exc"     -> ExcLeaves \cup { TTagged(<<V1, V2>>, lay) : lay \in {"int", "ext", "adj"} }
     [] Focus = "tagged"  -> TaggedLeaves
     [] Focus = "cls"     -> ClsLeaves
+    [] Focus = "construct" -> ClsLeaves
 
 Wrap(T) ==
   { TSeq(k, T) : k \in SeqKinds }
@@ -383,13 +384,31 @@ WrapOf(T, d) ==
     [] Focus \in {"condq", "condt", "exc", "tagged", "cls"} -> WrapFew(T)
     [] OTHER -> IF d = 0 \/ OuterWrap = "all" THEN Wrap(T) ELSE WrapFew(T)
 
+(* C14: constructions of a class: which init fields are supplied, how many of them positionally, *)
+(* through which constructor, with one supplied value possibly needing conversion / invalid     *)
+InitIdx(C) == {j \in DOMAIN C.fs : C.fs[j].init = "T"}
+SeqOfSet(S) == SelectSeq([j \in 1..20 |-> j], LAMBDA j : j \in S)
+LeadingPos(C, S) ==   \* how many members of S (in field order) are the first positional init fields
+  LET pos == SelectSeq([j \in DOMAIN C.fs |-> j], LAMBDA j : C.fs[j].kw = "F" /\ C.fs[j].init = "T")
+      ss == SeqOfSet(S) IN
+  Cardinality({n \in DOMAIN ss : n <= Len(pos) /\ \A m \in 1..n : ss[m] = pos[m]})
+Constructions(C) ==
+  UNION { UNION { { [k |-> "construction", path |-> p, posn |-> n,
+                     sup |-> [i \in DOMAIN SeqOfSet(S) |->
+                                <<SeqOfSet(S)[i], IF SeqOfSet(S)[i] = odd THEN ov ELSE Pick1(Members(C.fs[SeqOfSet(S)[i]].t))>>]]
+                    : p \in {"ctor", "unchecked"}, n \in 0..LeadingPos(C, S) }
+                  : odd \in S \cup {0}, ov \in {MkStr("s_zz"), MkInt(1), MkTuple(<<MkInt(1)>>), F20} }
+          : S \in SUBSET InitIdx(C) }
+
 Init == /\ ph = "grow" /\ dep = 0 /\ ty \in Leaves /\ val = MkNone
-Grow == /\ ph = "grow" /\ dep < MaxDepth
+Grow == /\ ph = "grow" /\ dep < MaxDepth /\ Focus # "construct"
         /\ ty' \in WrapOf(ty, dep)
         /\ dep' = dep + 1 /\ UNCHANGED <<val, ph>>
 PickValue == /\ ph = "grow" /\ ph' = "case"
              /\ val' \in Gen(ty) /\ UNCHANGED <<ty, dep>>
-Next == Grow \/ PickValue
+PickConstruction == /\ Focus = "construct" /\ ph = "grow" /\ ty.k = "cls" /\ ph' = "ctor"
+                    /\ val' \in Constructions(ty) /\ UNCHANGED <<ty, dep>>
+Next == Grow \/ PickValue \/ PickConstruction
 Spec == Init /\ [][Next]_vars
 
 -----------------------------------------------------------------------------
